@@ -876,6 +876,58 @@ theorem loop_leaves (n : ℕ) (m : Method) (o : Obj) (rows : List (List (Option 
   simp only [htake]
   rfl
 
+/-! ## 12. (round 4) sessions: one RDMs object analysed by several successive calls -/
+
+/-- the in-place write counts read off the current source are zero: neither `pool_rdm` (either file, incl.
+    the helpers it hands its data to) nor the two ceilings has a statement that writes into an array
+    aliasing the caller's data — so every function that takes the caller's object has write count 0 -/
+theorem input_write_leaves (f : Fn) :
+    Rsa.Gen.C07.poolInputWrites = 0 ∧ Rsa.Gen.C07.poolingInputWrites = 0 ∧
+    Rsa.Gen.C07.ceilingInputWrites = 0 ∧ writesOf f = 0 := by
+  refine ⟨rfl, rfl, rfl, ?_⟩
+  cases f <;> rfl
+
+/-- as coded, a call (noise ceiling, pooling, `eval_fixed`, any method) leaves the data of the object it
+    analyses exactly as they were -/
+theorem call_leaves_data_unchanged (c : Call) (rows : List (List (Option ℝ))) :
+    callEffect c rows = rows := by
+  unfold callEffect callEffectW
+  rw [(input_write_leaves c.fn).2.2.2]
+  simp
+
+/-- **sessions**: when one RDMs object is analysed by any sequence of calls (any functions, any methods,
+    any order, any arguments `κ`), every call returns what it returns on the pristine data, and the object
+    holds the pristine data after every call.  Hence every statement of this file about a single call —
+    optimality of the upper bound, leave-one-out structure, lower ≤ upper, invariances — holds for every
+    call of a session, whatever was computed on the object before. -/
+theorem session_calls_independent {κ ρ : Type} (call : κ → Call)
+    (result : κ → List (List (Option ℝ)) → ρ) (calls : List κ) (rows : List (List (Option ℝ))) :
+    runSessionG (fun c => callEffect (call c)) result calls rows =
+      calls.map (fun c => (result c rows, rows)) := by
+  induction calls with
+  | nil => rfl
+  | cons c cs ih =>
+    simp only [runSessionG, List.map_cons, call_leaves_data_unchanged]
+    rw [ih]
+
+/-- the `k`-th call of a session in particular: e.g. a `boot_noise_ceiling(…, 'cosine')` that comes after a
+    `'corr'` ceiling on the same object returns `bootNoiseCeilingO .cosine o rows` of the original rows, the
+    quantity `upper_unbeatable_cosine`, `lower_le_upper_cosine`, `ceiling_scale_invariant` … are about -/
+theorem session_call_at {κ ρ : Type} (call : κ → Call) (result : κ → List (List (Option ℝ)) → ρ)
+    (calls : List κ) (rows : List (List (Option ℝ))) (k : ℕ) (hk : k < calls.length) :
+    (runSessionG (fun c => callEffect (call c)) result calls rows)[k]? = some (result calls[k] rows, rows) := by
+  rw [session_calls_independent]
+  simp [hk]
+
+/-- why the write counts matter (the condition of `call_leaves_data_unchanged` is not decoration): a
+    `pool_rdm` with a single in-place statement replaces the caller's data by their ranks / z-scores, after
+    which a scale- or shift-sensitive analysis of the same object sees different data -/
+theorem inplace_write_changes_data :
+    callEffectW 1 ⟨.pool, .rhoA⟩ ([[some 5, some 3, some 9]] : List (List (Option ℝ)))
+      = [[some 2, some 1, some 3]] := by
+  simp [callEffectW, applyO, normF, Rsa.Gen.C07.normKind, Method.code, present, rankF, rankOf, cntLt, cntEq]
+  norm_num
+
 /-! ## non-vacuity -/
 
 /-- three 3-condition RDMs (one with a tie), each its own group with unordered descriptor values -/
@@ -1001,5 +1053,13 @@ example : 0 < 3 ∧ IsSolver (getV 3 (SigmaK.none : SigmaK ℝ)) (triLen 3) (sol
   refine ⟨by decide, ?_⟩
   rw [getV3_eq]
   exact isSolver_getV3
+
+-- round 4: a session of three calls with different methods on a stack with a commonly missing entry
+example : runSessionG (fun c => callEffect c) (fun (c : Call) rows => bootNoiseCeilingO c.m exObj rows)
+    [⟨.boot, .corr⟩, ⟨.cv, .cosine⟩, ⟨.evalFixed, .rhoA⟩] ([[some 1, none, some 3], [some 2, none, some 4]] : List (List (Option ℝ)))
+    = [⟨.boot, .corr⟩, ⟨.cv, .cosine⟩, ⟨.evalFixed, .rhoA⟩].map
+        (fun (c : Call) => (bootNoiseCeilingO c.m exObj [[some 1, none, some 3], [some 2, none, some 4]],
+          ([[some 1, none, some 3], [some 2, none, some 4]] : List (List (Option ℝ))))) :=
+  session_calls_independent id _ _ _
 
 end Rsa.Props.C07
